@@ -142,3 +142,56 @@ Proof.
   intros j Hj. unfold offsum, bigsum. cbn [seq map fold_right].
   destruct j as [|[|j]]; cbn; try lia; rewrite ?Rabs_R1; replace (Rabs 3) with 3 by (symmetry; apply Rabs_pos_eq; lra); lra.
 Qed.
+
+(* ROW diagonal dominance: the same statement for the transpose.  One elimination step commutes with transposition
+   (the update A i j - A i k * A k j / A k k is symmetric in the roles of rows and columns), so row dominance of the
+   trailing block is inherited too and every diagonal pivot of a row diagonally dominant matrix is nonzero -- although the
+   diagonal entry need not be the largest of its column: this is where the pivot rule's diagonal preference at threshold 0
+   (not the magnitude test) is what keeps perm_r = perm_c. *)
+Definition tr (A : rmat) : rmat := fun i j => A j i.
+Definition rdd (n k : nat) (A : rmat) : Prop := cdd n k (tr A).
+
+Lemma gstep_tr k A i j : gstep k (tr A) i j = tr (gstep k A) i j.
+Proof.
+  unfold gstep, tr. rewrite (andb_comm (k <? j)%nat (k <? i)%nat).
+  destruct ((k <? i)%nat && (k <? j)%nat); [|reflexivity]. unfold Rdiv. ring.
+Qed.
+
+Lemma cdd_ext n k A B : (forall i j, A i j = B i j) -> cdd n k A -> cdd n k B.
+Proof.
+  intros E H j Hj. specialize (H j Hj). rewrite <- (E j j).
+  replace (offsum n k B j) with (offsum n k A j); [exact H|].
+  unfold offsum. apply bigsum_ext. intros i _. rewrite (E i j). reflexivity.
+Qed.
+
+Theorem gstep_rdd n k A : (k < n)%nat -> rdd n k A -> rdd n (S k) (gstep k A).
+Proof.
+  intros Hk H. unfold rdd in *.
+  apply (cdd_ext n (S k) (gstep k (tr A))); [intros i j; apply gstep_tr|].
+  apply gstep_cdd; assumption.
+Qed.
+
+Theorem gelim_rdd n A : rdd n 0 A -> forall k, (k <= n)%nat -> rdd n k (gelim k A).
+Proof.
+  intros H0 k. induction k as [|k IH]; intros Hk; cbn [gelim]; [exact H0|].
+  apply gstep_rdd; [lia | apply IH; lia].
+Qed.
+
+Theorem row_dominant_pivots_nonzero n A : rdd n 0 A -> forall k, (k < n)%nat -> gelim k A k k <> 0.
+Proof.
+  intros H k Hk. pose proof (gelim_rdd n A H k ltac:(lia)) as R.
+  exact (cdd_pivot_nonzero n k (tr (gelim k A)) Hk R).
+Qed.
+
+(* a row dominant matrix whose diagonal is NOT the largest entry of its column: rows (1/4, 1/8) and (1, 2) *)
+Example rdd_not_column_max :
+  let A : rmat := fun i j => match i, j with O, O => /4 | O, _ => /8 | _, O => 1 | _, _ => 2 end in
+  rdd 2 0 A /\ Rabs (A 0 0)%nat < Rabs (A 1 0)%nat.
+Proof.
+  cbv zeta. split.
+  - intros j Hj. unfold offsum, bigsum, tr. cbn [seq map fold_right].
+    destruct j as [|[|j]]; cbn; try lia.
+    + rewrite (Rabs_pos_eq (/8)) by lra. rewrite (Rabs_pos_eq (/4)) by lra. lra.
+    + rewrite Rabs_R1. rewrite (Rabs_pos_eq 2) by lra. lra.
+  - rewrite (Rabs_pos_eq (/4)) by lra. rewrite Rabs_R1. lra.
+Qed.
